@@ -158,7 +158,11 @@ def worker(job):
                     st.inc("files0_with_dash_or_newline_names")
                 roots_eff = [x for x in names if x != ""]
                 if shape == "files0-stdin":
-                    args = [common.FIND] + lead + ["-files0-from", "-"] + tail
+                    # "-" or a name for the same pipe that is not a regular file (its reported size is 0)
+                    src = rng.choice(["-", "-", "/dev/stdin", "/proc/self/fd/0"])
+                    if src != "-":
+                        st.inc("files0_from_a_non_regular_file")
+                    args = [common.FIND] + lead + ["-files0-from", src] + tail
                     stdin = data
                 else:
                     lf = os.path.join(base, "list-%d" % run)
@@ -221,5 +225,5 @@ def run(ctx):
     ctx.pmap(worker, [(k, n // nw, ctx.seed) for k in range(nw)])
     for key in ("shape:none", "shape:operands", "shape:files0-file", "shape:files0-stdin", "shape:equiv", "files0_no_final_nul", "files0_final_nul",
                 "files0_with_empty_names", "files0_with_dash_or_newline_names", "runs_with_missing_starting_point", "equivalence_pairs",
-                "option_terminator_and_no_starting_point", "runs_with_an_empty_string_operand"):
+                "option_terminator_and_no_starting_point", "runs_with_an_empty_string_operand", "files0_from_a_non_regular_file"):
         ctx.require(key, 5)
